@@ -13,9 +13,10 @@ import (
 // fio-level session: drives fio.FileIO / fio.MMap directly (C11 back-ends, C20).
 // Protocol of lean/XixiKV/Drv/Fio.lean.
 type fioFile struct {
-	rw   fio.ReadWriter
-	path string
-	io   int
+	rw     fio.ReadWriter
+	path   string
+	io     int
+	closed bool
 }
 
 func (s *session) execFio(op string, a []string) (out string) {
@@ -32,6 +33,9 @@ func (s *session) execFio(op string, a []string) (out string) {
 		iot, _ := strconv.Atoi(a[1])
 		os.MkdirAll(s.dir("fio"), 0o755)
 		p := s.dir("fio") + "/" + name
+		if f := s.fios[name]; f != nil && !f.closed {
+			return "?"
+		}
 		rw, err := fio.NewReadWriter(p, byte(iot))
 		if err != nil {
 			return "err:open"
@@ -42,7 +46,17 @@ func (s *session) execFio(op string, a []string) (out string) {
 	}
 	f := s.fios[name]
 	if f == nil {
-		return "bad:no-file"
+		return "err:no-file"
+	}
+	if op == "fio.phys" {
+		st, err := os.Stat(f.path)
+		if err != nil {
+			return "phys -1"
+		}
+		return fmt.Sprintf("phys %d", st.Size())
+	}
+	if f.closed {
+		return "err:closed"
 	}
 	switch op {
 	case "fio.write":
@@ -59,10 +73,10 @@ func (s *session) execFio(op string, a []string) (out string) {
 		n, _ := strconv.Atoi(a[2])
 		b := make([]byte, n)
 		k, err := f.rw.Read(b, off)
-		if k == 0 && (err == io.EOF || n > 0) {
-			if err != nil && err != io.EOF {
-				return "err:read"
-			}
+		if err != nil && err != io.EOF {
+			return "err:read"
+		}
+		if k == 0 {
 			return "eof"
 		}
 		return fmt.Sprintf("r%d:%s", k, hex.EncodeToString(b[:k]))
@@ -97,7 +111,7 @@ func (s *session) execFio(op string, a []string) (out string) {
 		return "ok"
 	case "fio.close":
 		err := f.rw.Close()
-		delete(s.fios, name)
+		f.closed = true
 		if err != nil {
 			return "err:close"
 		}
